@@ -583,6 +583,7 @@ pub fn run(thorough: bool) -> Report {
     let brm = branch_menu();
     let quiet = quiet_menu();
     let forvar = forvar_menu();
+    let fn2 = fn2_menu();
     let mut fams = vec![];
     // (menu name, menu, statements, join layouts: 2 = all, 1 = none/all/each single, 0 = none only)
     let mut plan: Vec<(&str, &Vec<(&'static str, T)>, usize, u8)> = vec![
@@ -599,6 +600,7 @@ pub fn run(thorough: bool) -> Report {
         ("array", &arr, 4, 0),
         ("branch", &brm, 4, 2),
         ("forvar", &forvar, 5, 1),
+        ("fn2", &fn2, 4, 2),
         ("quiet", &quiet, 4, 1),
         ("quiet", &quiet, 5, 0),
     ];
